@@ -306,10 +306,11 @@ class Extractor:
         link_name: str
         lines: List[str]
         for link_name, lines in self.link_lines.items():
-            if len(lines) > 1:
-                self.invalid_link_lines += len(lines)
-            else:
-                self.links_map[link_name] = lines[0]
+            # A link name may be given by more than one Link line (e.g. in a
+            # region file and again in 'backward'). zic accepts that and lets
+            # the last line win, so do the same instead of dropping the link
+            # without a trace.
+            self.links_map[link_name] = lines[-1]
 
     def _read_line(self, input: TextIO) -> Optional[str]:
         """Return the next line, while supporting a one-line push_back().
